@@ -271,6 +271,9 @@ func calcCueItvls(segStart, segDur, utcStart, cueDur int) []cueItvl {
 		if utcEndMS < ci.endMS {
 			ci.endMS = utcEndMS
 		}
+		if ci.endMS <= ci.startMS {
+			continue // the cue ended before the segment starts: nothing to show
+		}
 		ci.startMS += diff
 		ci.endMS += diff
 		itvls = append(itvls, ci)
